@@ -22,6 +22,12 @@ func c02Packets(r *rand.Rand, perLen int, emit func(p packet.Packet, kind string
 		p[0], p[3] = 0x47, p[3]&0x0f|0x10
 		emit(p, "payload-only")
 	}
+	// adaptation fields filled exactly by their optional fields (capacity for payload = what is left, 0 at 183)
+	for _, ln := range []int{183, 183, 182, 100, 20, 4} {
+		for v := 0; v < 4; v++ {
+			emit(pktWithAF(r, fullAF(r, ln, v), true), "af+payload")
+		}
+	}
 	for ln := 0; ln <= 183; ln++ {
 		for k := 0; k < perLen; k++ {
 			hasPay := ln <= 182
